@@ -20,6 +20,11 @@ RULE = ('metamorphic: one server byte stream (valid C01 streams, C04 streams '
         'cut at every single offset and at all offset pairs in its last 8 '
         'bytes.  Non-trivial = reference run reached Ready or Rejected; '
         'distinct = distinct (base stream layout, cut set) signatures')
+RULE += (' '
+         'A quarter of the seeded cases run with a second, unrelated '
+         'connection of the same process being read between the reads of the '
+         'one under test, a fifth through an HTTP proxy whose answer is '
+         'segmented as well.')
 SHRINK_LISTS = [('cutsets',), ('cutsets', '*'), ('bcase', 'items'),
                 ('bcase', 'trailing')]
 EXPECTED_PROBES = ['cut_inside_header', 'cut_inside_reply', 'one_byte_delivery',
